@@ -131,17 +131,27 @@ PViewOf(c) == IF c.pval # <<>> THEN c.pval[1] ELSE c.pbase
 Touch(c) == IF IsClean(c) /\ c.snap # LastTid(hist) THEN FreshCon(hist, files, LastTid(hist)) ELSE c
 
 (* ------------------------- derived: observations ------------------------ *)
+\* snapshots at or after the pack time are promised (C07); tid 1 is the database without P
 ObsPoints == {t \in TidsOf(hist) : t >= 2 /\ t >= packed[1]} \cup (IF packed[1] >= 2 THEN {packed[1]} ELSE {})
 Known == {k[1] : k \in DOMAIN files} \cup (OidsOf(hist) \cap Blobs)
+Readable == 1..(NBlob + 1)            \* P and the blobs
 SnapView(o, t) == LET r == LoadBefore(hist, o, t + 1)
                   IN IF r.k # "rev" THEN Absent ELSE IF o = P THEN r.d.v ELSE FileC(o, r.serial)
 TouchedViewable == IF txn.who = "c1" THEN {} ELSE {b \in con.touched : Viewable(con, b)}
 RecKind(H, r) == IF DataOfRec(H, r) = Gone THEN "zero" ELSE "data"
-SnapExpr == [t \in ObsPoints |-> [o \in Known \cup {P} |-> SnapView(o, t)]]
+IterEntry(H, i) == [tid |-> H[i].tid, recs |-> {<<H[i].recs[j].oid, RecKind(H, H[i].recs[j])>> : j \in 1..Len(H[i].recs)}]
+SnapExpr == [t \in ObsPoints |-> [o \in Readable |-> SnapView(o, t)]]
 ViewExpr == [b \in TouchedViewable |-> AView(con, b)]
-IterExpr == [i \in 1..Len(hist) |->
-               [tid |-> hist[i].tid,
-                recs |-> {<<hist[i].recs[j].oid, RecKind(hist, hist[i].recs[j])>> : j \in 1..Len(hist[i].recs)}]]
+IterExpr == [i \in 1..Len(hist) |-> IterEntry(hist, i)]
+\* the row of the snapshot table for the transaction T that was just appended (histories only grow between
+\* packs, so the older rows stay): H2, F2 are the new history and files
+RowAfter(row, T, H2, F2) ==
+  [o \in Readable |->
+     IF \E j \in 1..Len(T.recs) : T.recs[j].oid = o
+     THEN LET r == T.recs[CHOOSE j \in 1..Len(T.recs) : T.recs[j].oid = o]
+              d == DataOfRec(H2, r)
+          IN IF d = Gone THEN Absent ELSE IF o = P THEN d.v ELSE FileIn(F2, o, T.tid)
+     ELSE row[o]]
 
 (* ------------------------- derived: the property ------------------------ *)
 BlobRevsOf(H) == {r \in {<<b, H[i].tid>> : b \in Blobs, i \in 1..Len(H)} :
@@ -156,11 +166,16 @@ ViolExpr ==
   \cup {V("bytes-differ-from-written") : k \in {k \in DOMAIN files : Committed(k) /\ files[k].c # files[k].w}}
   \cup {[inv |-> "CommittedFilesImmutable", kind |-> "committed-file-writable"] :
            k \in {k \in DOMAIN files : Committed(k) /\ ~files[k].ro}}
-\* the derived variables are recomputed only by the actions that can change them (evaluating the tables for
-\* every successor state is what TLC spends its time on otherwise)
-Derived == osnap' = SnapExpr' /\ oiter' = IterExpr' /\ oview' = ViewExpr' /\ viol' = ViolExpr'
+\* The derived variables are functions of the other variables; they are recomputed only by the actions that can
+\* change them, and incrementally where the history only grows (evaluating the tables for every successor
+\* state is what TLC would spend its time on otherwise).
+DerivedAll == osnap' = SnapExpr' /\ oiter' = IterExpr' /\ oview' = ViewExpr' /\ viol' = ViolExpr'
 DerivedCon == osnap' = osnap /\ oiter' = oiter /\ oview' = ViewExpr' /\ viol' = viol
-DerivedTxn == osnap' = osnap /\ oiter' = oiter /\ oview' = ViewExpr' /\ viol' = ViolExpr'
+DerivedEnd == osnap' = osnap /\ oiter' = oiter /\ oview' = ViewExpr' /\ viol' = ViolExpr'
+DerivedCommit == /\ osnap' = Put(osnap, hist'[Len(hist')].tid,
+                                  RowAfter(osnap[MaxS(DOMAIN osnap)], hist'[Len(hist')], hist', files'))
+                 /\ oiter' = Append(oiter, IterEntry(hist', Len(hist')))
+                 /\ oview' = ViewExpr' /\ viol' = ViolExpr'
 
 Init ==
   /\ hist = <<Txn(1, <<DataRec(0, RootD({}))>>), Txn(2, <<DataRec(0, RootD({P})), DataRec(P, PlainD("v1"))>>)>>
@@ -263,7 +278,7 @@ TpcBegin ==
   /\ clk' = clk + 1
   /\ txn' = [who |-> "c1", tid |-> clk + 1, phase |-> "begun", staged |-> <<>>, target |-> 0]
   /\ res' = OK("tpc_begin")
-  /\ UNCHANGED <<hist, files, old, dirty, leak, packed, con, nextb, aborted>> /\ DerivedTxn
+  /\ UNCHANGED <<hist, files, old, dirty, leak, packed, con, nextb, aborted>> /\ DerivedCon
 
 \* Connection.commit: without savepoints the registered objects in registration order, an object that becomes
 \* reachable right after its referrer; with savepoints first one more flush, then every oid of the TmpStore
@@ -305,7 +320,7 @@ Store ==
         /\ txn' = [txn EXCEPT !.phase = IF st.fail THEN "failed" ELSE "stored", !.staged = st.staged]
         /\ con' = [c EXCEPT !.work = IF c.spon THEN <<>> ELSE Drop(@, st.done), !.spfile = <<>>, !.spon = FALSE]
         /\ res' = IF st.fail THEN Out("commit", "ConflictError") ELSE OK("commit")
-  /\ UNCHANGED <<hist, old, clk, packed, nextb, aborted>> /\ Derived
+  /\ UNCHANGED <<hist, old, clk, packed, nextb, aborted>> /\ DerivedCon
 StoreOK == Store /\ txn'.phase = "stored"
 StoreFail == Store /\ txn'.phase = "failed"
 
@@ -313,7 +328,7 @@ Vote ==
   /\ txn.who # "none" /\ txn.phase = "stored"
   /\ txn' = [txn EXCEPT !.phase = "voted"]
   /\ res' = OK("tpc_vote")
-  /\ UNCHANGED <<hist, files, old, dirty, leak, clk, packed, con, nextb, aborted>> /\ DerivedTxn
+  /\ UNCHANGED <<hist, files, old, dirty, leak, clk, packed, con, nextb, aborted>> /\ DerivedCon
 
 \* tpc_finish: the transaction joins the history, the dirty list is forgotten
 Finish ==
@@ -323,7 +338,7 @@ Finish ==
   /\ con' = IF txn.who = "c1" THEN FreshCon(hist', files, txn.tid) ELSE con
   /\ txn' = NoTxn
   /\ res' = OK("tpc_finish")
-  /\ UNCHANGED <<files, old, leak, clk, packed, nextb, aborted>> /\ Derived
+  /\ UNCHANGED <<files, old, leak, clk, packed, nextb, aborted>> /\ DerivedCommit
 
 \* Connection.abort (called on a resource that has not voted): working copies of registered blobs and the
 \* savepoint store go; TransactionalUndo.abort does nothing
@@ -332,7 +347,7 @@ ConnAbort ==
   /\ txn' = [txn EXCEPT !.phase = "caborted"]
   /\ con' = IF txn.who = "c1" THEN [con EXCEPT !.work = <<>>, !.spfile = <<>>, !.spon = FALSE] ELSE con
   /\ res' = OK("abort")
-  /\ UNCHANGED <<hist, files, old, dirty, leak, clk, packed, nextb, aborted>> /\ DerivedTxn
+  /\ UNCHANGED <<hist, files, old, dirty, leak, clk, packed, nextb, aborted>> /\ DerivedCon
 
 \* storage.tpc_abort: the files listed as dirty are removed - by FileStorage only if a vote happened (F4)
 TpcAbort ==
@@ -344,7 +359,7 @@ TpcAbort ==
   /\ con' = IF txn.who = "c1" THEN FreshCon(hist, files', LastTid(hist)) ELSE con
   /\ txn' = NoTxn
   /\ res' = OK("tpc_abort")
-  /\ UNCHANGED <<hist, old, leak, clk, packed, nextb>> /\ Derived
+  /\ UNCHANGED <<hist, old, leak, clk, packed, nextb>> /\ DerivedEnd
 
 (* ------------------------------ second writer --------------------------- *)
 \* another connection changes P or rewrites a blob and commits (atomic for c1: the commit lock)
@@ -359,7 +374,7 @@ OtherCommit(o, x) ==
      /\ clk' = t
   /\ dirty' = {}
   /\ res' = OK("other")
-  /\ UNCHANGED <<old, leak, packed, txn, con, nextb, aborted>> /\ Derived
+  /\ UNCHANGED <<old, leak, packed, txn, con, nextb, aborted>> /\ DerivedCommit
 
 (* ---------------------------------- undo -------------------------------- *)
 \* DB.undo(id) in a transaction of its own (TransactionalUndo): FileStorage._txn_undo_write /
@@ -370,7 +385,7 @@ UBegin(t) ==
   /\ clk' = clk + 1
   /\ txn' = [who |-> "undo", tid |-> clk + 1, phase |-> "begun", staged |-> <<>>, target |-> t]
   /\ res' = OK("tpc_begin")
-  /\ UNCHANGED <<hist, files, old, dirty, leak, packed, con, nextb, aborted>> /\ DerivedTxn
+  /\ UNCHANGED <<hist, files, old, dirty, leak, packed, con, nextb, aborted>> /\ DerivedCon
 
 \* tid of the record that physically holds the data reached from o's record in transaction i (_loadBackTxn)
 RECURSIVE HolderTid(_, _, _)
@@ -424,7 +439,7 @@ UStore ==
         /\ dirty' = dirty \cup {<<o, txn.tid>> : o \in copies}
         /\ txn' = [txn EXCEPT !.phase = IF fails = {} THEN "stored" ELSE "failed", !.staged = UndoRecs(hist, i, 1)]
         /\ res' = IF fails = {} THEN OK("commit") ELSE Out("commit", "UndoError")
-  /\ UNCHANGED <<hist, old, leak, clk, packed, con, nextb, aborted>> /\ Derived
+  /\ UNCHANGED <<hist, old, leak, clk, packed, con, nextb, aborted>> /\ DerivedCon
 UStoreOK == UStore /\ txn'.phase = "stored"
 UStoreFail == UStore /\ txn'.phase = "failed"
 
@@ -455,7 +470,7 @@ Pack(T) ==
         /\ packed' = <<IF done /\ T > packed[1] THEN T ELSE packed[1], IF ~IsMixin /\ done THEN T ELSE packed[2]>>
         /\ res' = Out("pack", r.out)
         /\ con' = FreshCon(hist', files', LastTid(r.h))
-  /\ UNCHANGED <<dirty, leak, clk, txn, nextb, aborted>> /\ Derived
+  /\ UNCHANGED <<dirty, leak, clk, txn, nextb, aborted>> /\ DerivedAll
 
 (* ---------------------------------- next -------------------------------- *)
 Contents1 == {<<>>} \cup {<<x>> : x \in Atoms}
@@ -519,11 +534,11 @@ CommittedReadOnly == \A v \in viol : v.inv # "CommittedFilesImmutable"
 FilesMatchRecords == NoMissingFile /\ NoFileOfAbortedTxn /\ NoFileOfRemovedRevision /\ BytesAsWritten
 NoViolation == viol = {}
 
-\* no snapshot resolves to a file of the transaction in progress; every snapshot read succeeds
-UncommittedInvisible ==
-  \A t \in ObsPoints : \A b \in Known :
-     LET r == LoadBefore(hist, b, t + 1) IN r.k = "rev" => ~InFlight(<<b, r.serial>>)
-SnapshotsReadable == \A t \in ObsPoints : \A b \in Known : osnap[t][b] # Lost
+\* a file of the transaction in progress carries a tid no snapshot can reach; every snapshot read succeeds
+UncommittedInvisible == \A k \in DOMAIN files : InFlight(k) => \A t \in DOMAIN osnap : k[2] > t
+SnapshotsReadable == \A t \in DOMAIN osnap : \A b \in Blobs : osnap[t][b] # Lost
+\* the incrementally maintained tables are the functions of the state they are meant to be
+DerivedExact == osnap = SnapExpr /\ oiter = IterExpr /\ oview = ViewExpr /\ viol = ViolExpr
 
 \* a committed file is never changed in place (content, permission bits)
 CommittedFilesImmutable ==
